@@ -13,8 +13,37 @@ use std::process::{Child, Command, Stdio};
 use std::sync::mpsc;
 use std::time::{Duration, Instant};
 
+/// Limits for one run, in seconds of CPU time of the worker process (typical: milliseconds; a
+/// `poll()` that does not return burns CPU).  CPU time, not wall clock, so that an overloaded
+/// machine cannot turn slow runs into suspected hangs.
 const HANG_LIMIT_S: u64 = 60;
 const HANG_RECHECK_S: u64 = 120;
+/// Wall-clock fallback (a process that neither finishes nor uses CPU).
+const HANG_WALL_FACTOR: u64 = 30;
+
+/// CPU time (user + system) a process has used so far, in milliseconds (Linux: /proc/<pid>/stat,
+/// clock ticks of 10 ms).
+fn cpu_ms(pid: u32) -> Option<u64> {
+    let s = std::fs::read_to_string(format!("/proc/{pid}/stat")).ok()?;
+    let rest = &s[s.rfind(')')? + 1..];
+    let f: Vec<&str> = rest.split_whitespace().collect();
+    // after "pid (comm)": state is field 0, utime field 11, stime field 12
+    let ut: u64 = f.get(11)?.parse().ok()?;
+    let st: u64 = f.get(12)?.parse().ok()?;
+    Some((ut + st) * 10)
+}
+
+/// Has the run that started at wall-clock `t` / CPU reading `cpu0` of process `pid` exceeded `limit_s`?
+fn over_limit(pid: u32, t: Instant, cpu0: Option<u64>, limit_s: u64) -> bool {
+    if t.elapsed().as_secs() > limit_s * HANG_WALL_FACTOR {
+        return true;
+    }
+    match (cpu0, cpu_ms(pid)) {
+        (Some(a), Some(b)) => b.saturating_sub(a) > limit_s * 1000,
+        // no /proc: wall clock
+        _ => t.elapsed().as_secs() > limit_s,
+    }
+}
 
 fn parse_tier(s: &str) -> Tier {
     match s {
@@ -160,15 +189,16 @@ fn cmd_replay(args: &[String]) -> i32 {
             let exe = std::env::current_exe().unwrap();
             let mut child = Command::new(exe).args(["replay", &args[1], "--inner"]).stdout(Stdio::null()).spawn().unwrap();
             let t0 = Instant::now();
+            let cpu0 = cpu_ms(child.id());
             loop {
                 if let Some(_st) = child.try_wait().unwrap() {
                     println!("NOT REPRODUCED: the run terminates");
                     return 0;
                 }
-                if t0.elapsed().as_secs() > HANG_LIMIT_S {
+                if over_limit(child.id(), t0, cpu0, HANG_LIMIT_S) {
                     let _ = child.kill();
                     let _ = child.wait();
-                    println!("REPRODUCED: poll() does not return ({} s)", HANG_LIMIT_S);
+                    println!("REPRODUCED: poll() does not return ({} s of CPU time)", HANG_LIMIT_S);
                     println!("VIOLATION property={} replay={}", e.property, args[1]);
                     return 1;
                 }
@@ -228,7 +258,7 @@ enum Msg {
 
 struct Worker {
     child: Child,
-    cur: Option<(u64, Instant)>,
+    cur: Option<(u64, Instant, Option<u64>)>,
     done: bool,
     killed: bool,
     stride: u64,
@@ -304,7 +334,7 @@ pub fn run_batch(check: &str, tier: Tier, seed: u64, runs: u64, jobs: usize) -> 
         match rx.recv_timeout(Duration::from_millis(500)) {
             Ok(Msg::Line(id, l)) => {
                 if let Some(k) = l.strip_prefix("BEGIN ") {
-                    workers[id].cur = Some((k.parse().unwrap(), Instant::now()));
+                    workers[id].cur = Some((k.parse().unwrap(), Instant::now(), cpu_ms(workers[id].child.id())));
                 } else if let Some(j) = l.strip_prefix("RESULT ") {
                     match serde_json::from_str::<RunResult>(j) {
                         Ok(r) => {
@@ -326,7 +356,7 @@ pub fn run_batch(check: &str, tier: Tier, seed: u64, runs: u64, jobs: usize) -> 
                 if !workers[id].done && !workers[id].killed {
                     errors.push(format!(
                         "worker {id} died{}",
-                        workers[id].cur.map(|(k, _)| format!(" in run {k}")).unwrap_or_default()
+                        workers[id].cur.map(|(k, _, _)| format!(" in run {k}")).unwrap_or_default()
                     ));
                 }
             }
@@ -335,8 +365,8 @@ pub fn run_batch(check: &str, tier: Tier, seed: u64, runs: u64, jobs: usize) -> 
         }
         // watchdog
         for id in 0..workers.len() {
-            if let Some((k, t)) = workers[id].cur {
-                if t.elapsed().as_secs() > HANG_LIMIT_S && !workers[id].killed {
+            if let Some((k, t, cpu0)) = workers[id].cur {
+                if !workers[id].killed && over_limit(workers[id].child.id(), t, cpu0, HANG_LIMIT_S) {
                     let _ = workers[id].child.kill();
                     workers[id].killed = true;
                     workers[id].cur = None;
@@ -366,8 +396,9 @@ pub fn run_batch(check: &str, tier: Tier, seed: u64, runs: u64, jobs: usize) -> 
             .spawn()
             .expect("spawn recheck");
         let t0 = Instant::now();
+        let cpu0 = cpu_ms(child.id());
         let mut finished = false;
-        while t0.elapsed().as_secs() < HANG_RECHECK_S {
+        while !over_limit(child.id(), t0, cpu0, HANG_RECHECK_S) {
             if child.try_wait().unwrap().is_some() {
                 finished = true;
                 break;
@@ -600,7 +631,7 @@ fn cmd_check(args: &[String]) -> i32 {
             sig: "hang".into(),
             t_us: 0,
             station: None,
-            detail: format!("run {k} did not finish within {HANG_RECHECK_S} s of wall clock (typical: milliseconds)"),
+            detail: format!("run {k} did not finish within {HANG_RECHECK_S} s of CPU time (typical: milliseconds)"),
         };
         let dummy = RunResult::default();
         if let Some(f) = known_match(&known, &v, &dummy) {
